@@ -30,6 +30,8 @@ def run(ctx, rep):
     rep.assume('fault model: every backend request (read, write, zero/punch, fsync) may return an error')
     # C17.1
     n_calls = 0
+    from .. import errs as _e
+    _e.EXAMINED[0] = 0
     for b in f.body_list:
         if '::tests::' in b.path:
             continue
@@ -41,7 +43,9 @@ def run(ctx, rep):
                           b.where(bi), 'the result of `%s` in %s is dropped without being looked at: a backend error '
                           'is lost and the operation continues as if the request had succeeded' % (what[:140], fn))
     rep.floor('call sites scanned for dropped results', n_calls, 3000)
-    rep.ob('C17.1', 'all other result-producing calls', True, 'def-use closure reaches a consuming use')
+    from .. import errs
+    rep.floor('result-producing calls/awaits whose def-use closure was followed', errs.EXAMINED[0], 150)
+    rep.ob('C17.1', 'all other result-producing calls (%d)' % errs.EXAMINED[0], True, 'def-use closure reaches a consuming use')
     # fault-model flow
     d = c04.closure_cached(f, faults=True)
     rep.count('units analysed (fault model)', d.units)
